@@ -23,7 +23,7 @@ Section Local2.
   (* one context per thread: a second registration fails with EEXIST and changes nothing *)
   Theorem ctxreg_second_refused cur w c p : w_tls w = Some c ->
     exists t a, exec cur w (CCtxReg p) = ret (emit w (TMark t a)) rEEXIST.
-  Proof. intros H. unfold CoreExec.exec, exec_call. cbn [call_handle]. emit_frame. rewrite H. eauto. Qed.
+  Proof. intros H. unfold CoreExec.exec, exec_own, exec_call. cbn [call_handle]. emit_frame. rewrite H. eauto. Qed.
 
   Definition ctx_call (c : call) : bool :=
     match c with
@@ -35,7 +35,7 @@ Section Local2.
   Theorem no_ctx_refused cur w c : the_ctx w = None -> ctx_call c = true ->
     exists t a, exec cur w c = ret (emit w (TMark t a)) rEPIPE.
   Proof.
-    intros H Hc. destruct c; cbn in Hc; try discriminate; unfold CoreExec.exec, exec_call; cbn [call_handle]; emit_frame;
+    intros H Hc. destruct c; cbn in Hc; try discriminate; unfold CoreExec.exec, exec_own, exec_call; cbn [call_handle]; emit_frame;
       try (rewrite H; eauto).
     - (* ctxdereg *) unfold retp, do_ctx_dereg, ctx_deregister. emit_frame. rewrite H. cbn [fst snd]. eauto.
     - (* reg *) unfold retp, mod_register. destruct (spec_of sc m) eqn:Es.
@@ -47,7 +47,7 @@ Section Local2.
     (forall m, c = CReg m -> spec_of sc m <> None) ->
     exists t a, exec cur w c = ret (emit w (TMark t a)) rEPIPE.
   Proof.
-    intros H Hc Hreg. destruct c; cbn in Hc; try discriminate; unfold CoreExec.exec, exec_call; cbn [call_handle]; emit_frame;
+    intros H Hc Hreg. destruct c; cbn in Hc; try discriminate; unfold CoreExec.exec, exec_own, exec_call; cbn [call_handle]; emit_frame;
       try (rewrite H; eauto).
     - unfold retp, do_ctx_dereg, ctx_deregister. emit_frame. rewrite H. cbn [fst snd]. eauto.
     - unfold retp, mod_register. destruct (spec_of sc m) eqn:Es; [|exfalso; eapply Hreg; eauto].
@@ -64,17 +64,17 @@ Section Local2.
   (* a looping context refuses to be deregistered; so does one that is being torn down *)
   Theorem ctxdereg_looping_refused cur w c : the_ctx w = Some c -> c_state c <> CIdle ->
     exists t a, exec cur w CCtxDereg = ret (emit w (TMark t a)) rEINVAL.
-  Proof. intros H Hs. unfold CoreExec.exec, exec_call, retp, do_ctx_dereg, ctx_deregister. cbn [call_handle]. emit_frame. rewrite H.
+  Proof. intros H Hs. unfold CoreExec.exec, exec_own, exec_call, retp, do_ctx_dereg, ctx_deregister. cbn [call_handle]. emit_frame. rewrite H.
          destruct (c_state c); [congruence| |]; cbn [fst snd]; eauto. Qed.
 
   (* after finalize no module can be registered *)
   Theorem finalized_refuses_register cur w c m sp : the_ctx w = Some c -> c_finalized c = true -> spec_of sc m = Some sp ->
     exists t a, exec cur w (CReg m) = ret (emit w (TMark t a)) rEPERM.
-  Proof. intros H Hf Hs. unfold CoreExec.exec, exec_call, retp, mod_register. cbn [call_handle]. rewrite Hs. emit_frame. rewrite H, Hf. cbn [fst snd]. eauto. Qed.
+  Proof. intros H Hf Hs. unfold CoreExec.exec, exec_own, exec_call, retp, mod_register. cbn [call_handle]. rewrite Hs. emit_frame. rewrite H, Hf. cbn [fst snd]. eauto. Qed.
 
   Theorem finalize_sets cur w c : the_ctx w = Some c ->
     exists t a, exec cur w CCtxFinalize = ret (upd_ctx (emit w (TMark t a)) (ctx_with_final true)) 0.
-  Proof. intros H. unfold CoreExec.exec, exec_call. cbn [call_handle]. emit_frame. rewrite H. eauto. Qed.
+  Proof. intros H. unfold CoreExec.exec, exec_own, exec_call. cbn [call_handle]. emit_frame. rewrite H. eauto. Qed.
 
   (* ================= C15: names, deny flags, reserved topics ================= *)
 
@@ -82,7 +82,7 @@ Section Local2.
   Theorem same_name_refused cur w c m sp old omr : the_ctx w = Some c -> c_finalized c = false -> spec_of sc m = Some sp ->
     tbl_find (ms_slot sp) (c_modules c) = Some old -> get_mod w old = Some omr -> m_replace omr = false ->
     exists t a, exec cur w (CReg m) = ret (emit w (TMark t a)) rEEXIST.
-  Proof. intros H Hf Hs Ht Ho Hr. unfold CoreExec.exec, exec_call, retp, mod_register. cbn [call_handle]. rewrite Hs. emit_frame.
+  Proof. intros H Hf Hs Ht Ho Hr. unfold CoreExec.exec, exec_own, exec_call, retp, mod_register. cbn [call_handle]. rewrite Hs. emit_frame.
          rewrite H, Hf, Ht. emit_frame. rewrite Ho, Hr. replace (negb (rEEXIST =? 0)%Z) with true by reflexivity. cbn [fst snd]. eauto. Qed.
 
   (* deny flags: the denied class of calls fails with EPERM and changes nothing *)
@@ -99,7 +99,7 @@ Section Local2.
     { unfold mod_assert_perm. destruct (mod_assert w m) eqn:E; [eexists; split; [reflexivity|eapply mod_assert_neg; eauto]|].
       rewrite Hm, Hd. eauto. }
     destruct Hp as (e & He & Hn).
-    unfold CoreExec.exec. destruct c; cbn in Hc; try discriminate; inversion Hc; subst; cbn [call_handle]; rewrite emit_uref;
+    unfold CoreExec.exec, exec_own. destruct c; cbn in Hc; try discriminate; inversion Hc; subst; cbn [call_handle]; rewrite emit_uref;
       (destruct (Nat.eqb (uref_count w m) 0); [apply refused_intro; auto|]); unfold exec_call; unfold retp, tell_step;
       match goal with |- context [mod_assert_perm ?ww m m_denypub] => change (mod_assert_perm ww m m_denypub) with (mod_assert_perm w m m_denypub) end;
       rewrite He; cbn [fst snd]; apply refused_intro; auto.
@@ -113,7 +113,7 @@ Section Local2.
     { unfold mod_assert_perm. destruct (mod_assert w m) eqn:E; [eexists; split; [reflexivity|eapply mod_assert_neg; eauto]|].
       rewrite Hm, Hd. eauto. }
     destruct Hp as (e & He & Hn).
-    unfold CoreExec.exec. destruct c; cbn in Hc; try discriminate; inversion Hc; subst; cbn [call_handle]; rewrite emit_uref;
+    unfold CoreExec.exec, exec_own. destruct c; cbn in Hc; try discriminate; inversion Hc; subst; cbn [call_handle]; rewrite emit_uref;
       (destruct (Nat.eqb (uref_count w m) 0); [apply refused_intro; auto|]); unfold exec_call;
       match goal with |- context [mod_assert_perm ?ww m m_denysub] => change (mod_assert_perm ww m m_denysub) with (mod_assert_perm w m m_denysub) end;
       rewrite He; apply refused_intro; auto.
@@ -128,7 +128,7 @@ Section Local2.
   Theorem reserved_topic_refused cur w m topic data af : is_system_topic topic = true ->
     refused w (exec cur w (CPublish m topic data af)).
   Proof.
-    codes. intros Ht. unfold CoreExec.exec. cbn [call_handle]. rewrite emit_uref.
+    codes. intros Ht. unfold CoreExec.exec, exec_own. cbn [call_handle]. rewrite emit_uref.
     destruct (Nat.eqb (uref_count w m) 0); [apply refused_intro; auto|]. unfold exec_call.
     destruct (mod_assert_perm _ m m_denypub) eqn:E.
     - apply refused_intro. eapply mod_assert_perm_neg; eauto.
@@ -139,7 +139,7 @@ Section Local2.
   Theorem persist_dereg_refused cur w c m mr : uref_count w m <> 0 -> w_tls w = Some c -> c_state c = CLooping ->
     get_mod w m = Some mr -> m_persist mr = true -> refused w (exec cur w (CDereg m)).
   Proof.
-    intros Hu Htl Hl Hm Hp. codes. unfold CoreExec.exec. cbn [call_handle]. rewrite emit_uref.
+    intros Hu Htl Hl Hm Hp. codes. unfold CoreExec.exec, exec_own. cbn [call_handle]. rewrite emit_uref.
     destruct (Nat.eqb_spec (uref_count w m) 0); [contradiction|]. unfold exec_call, retp, mod_deregister, dereg_fuel.
     rewrite Nat.add_comm. cbn [Nat.add]. emit_frame.
     destruct (mod_assert w m) eqn:E; [cbn [fst snd]; apply refused_intro; eapply mod_assert_neg; eauto|].
@@ -260,7 +260,7 @@ Section Local2.
       ret (call_pubsub_cb run_cb (upd_mod (emit w1 (TMark t a)) m (mod_with_stash (skipn n (m_stash mr)))) m (firstn n (m_stash mr)))
           (Z.of_nat (length (firstn n (m_stash mr)))).
   Proof.
-    intros Hu Ha Hn Ht Hm. unfold CoreExec.exec. cbn [call_handle]. rewrite emit_uref.
+    intros Hu Ha Hn Ht Hm. unfold CoreExec.exec, exec_own. cbn [call_handle]. rewrite emit_uref.
     destruct (Nat.eqb_spec (uref_count w m) 0); [contradiction|]. unfold exec_call.
     rewrite emit_mod_assert_state, Ha. destruct (Nat.eqb_spec n 0); [contradiction|].
     rewrite (consume_token_emit _ _ _ _ Ht).
@@ -279,7 +279,7 @@ Section Local2.
      | None => true end) = true ->
     exists t a, exec cur w (CStash m k) = ret (upd_mod (href (emit w1 (TMark t a)) (e_obj e)) m (mod_with_stash (m_stash mr ++ [e]))) 0.
   Proof.
-    intros Hu Ha Hk Ht Hm Hp. unfold CoreExec.exec. cbn [call_handle]. rewrite emit_uref.
+    intros Hu Ha Hk Ht Hm Hp. unfold CoreExec.exec, exec_own. cbn [call_handle]. rewrite emit_uref.
     destruct (Nat.eqb_spec (uref_count w m) 0); [contradiction|]. unfold exec_call.
     rewrite emit_mod_assert_state, Ha, Hk. rewrite (consume_token_emit _ _ _ _ Ht).
     match goal with |- context [get_mod (emit w1 ?t) m] => change (get_mod (emit w1 t) m) with (get_mod w1 m) end.
@@ -295,7 +295,7 @@ Section Local2.
     e_src e = Some i -> get_src w1 i = Some s -> f_prio (s_fl s) = PHigh ->
     exists t a, exec cur w (CStash m k) = ret (emit w1 (TMark t a)) rEPERM.
   Proof.
-    intros Hu Ha Hk Ht Hs Hg Hp. unfold CoreExec.exec. cbn [call_handle]. rewrite emit_uref.
+    intros Hu Ha Hk Ht Hs Hg Hp. unfold CoreExec.exec, exec_own. cbn [call_handle]. rewrite emit_uref.
     destruct (Nat.eqb_spec (uref_count w m) 0); [contradiction|]. unfold exec_call.
     rewrite emit_mod_assert_state, Ha, Hk. rewrite (consume_token_emit _ _ _ _ Ht). rewrite Hs.
     match goal with |- context [get_src (emit w1 ?t) i] => change (get_src (emit w1 t) i) with (get_src w1 i) end.
